@@ -15,7 +15,7 @@ PID = 'C08'
 LEVEL = 'exploration'
 BUDGET = {'quick': 8000, 'thorough': 300000}
 CAP_S = {'quick': 150, 'thorough': 3000}
-RULE = ('case = (kind in {generator, async generator, coroutine}; body from a statement grammar: yield constant, x = yield v recording '
+RULE = ('case = (kind in {generator, async generator, coroutine}, decorated as a plain function or (one case in four) as a bound method of an instance; body from a statement grammar: yield constant, x = yield v recording '
         'what was sent, nested try/except E/finally whose handlers yield, return, re-raise, raise another exception or swallow, return v, '
         'raise, bounded loops, awaiting a custom awaitable that suspends once; return annotation present (checked wrapper) or absent; '
         'operation sequence of length <= 8 over next/send(v)/throw(E)/close resp. anext/asend/athrow/aclose with E in {ValueError, KeyError, '
